@@ -1,5 +1,5 @@
 (* The pre-fix shutdown behaviour (pinned commit f01d2fe) — kept only to document the repaired
-   defects C36-1b and C36-2; it is the instance [exec_gen false] of Conc/Shutdown.v:
+   defects C36-1b and C36-2; it is the instance [exec_gen PreFix] of Conc/Shutdown.v:
 
    C36-1b  attachClient did not look at `done` after Clients.Add: a handler that had run
            ClientsWg.Add(1) but was not yet in Clients when Close took its snapshot was never
@@ -12,8 +12,10 @@
 From MV Require Import Base.Val Base.Sched Conc.Shutdown.
 Open Scope Z_scope.
 
-Definition final_prefix (vers : list N) (sched : list tid) : sstate :=
-  shared (run (exec_gen false) sched (shutdown_threads vers)).
+Definition v5 : cspec := mkCS 5 false false.
+
+Definition final_prefix (vers : list cspec) (sched : list tid) : sstate :=
+  shared (run (exec_gen PreFix) sched (shutdown_threads vers)).
 
 (* tids for one connection: 0 closer, 1 accept loop, 2 client, 3 handler (4 client going away).
    dial, send CONNECT, accept, spawn, handler runs ClientsWg.Add and reads the CONNECT; Close: end, snapshot (empty), disconnect, close
@@ -21,7 +23,7 @@ Definition final_prefix (vers : list N) (sched : list tid) : sstate :=
 Definition mid_attach : list tid := [1; 2; 2; 1; 1; 1; 3; 3; 0; 0; 0; 0; 1; 0; 0; 3; 3]%nat.
 
 Lemma prefix_mid_attach :
-  let s := final_prefix [5%N] mid_attach in
+  let s := final_prefix [v5] mid_attach in
   close_called s = true /\ quiescent s = true /\ returned s = false /\
   map (fun c => (c_phase c, c_connack c, c_closed c, c_disc c)) (s_conns s) = [(PServing, true, false, false)] /\
   shutdown_complete s = false.
@@ -30,7 +32,7 @@ Proof. vm_compute. repeat split. Qed.
 (* the same schedule on the current code: the handler refuses the client (failure CONNACK) and
    returns, Wait returns *)
 Lemma fixed_mid_attach :
-  let s := final [5%N] (mid_attach ++ [0]%nat) in
+  let s := final [v5] (mid_attach ++ [0]%nat) in
   quiescent s = true /\ shutdown_complete s = true /\
   map (fun c => (c_phase c, c_connack c, c_closed c)) (s_conns s) = [(PDone, false, true)].
 Proof. vm_compute. repeat split. Qed.
@@ -39,18 +41,18 @@ Proof. vm_compute. repeat split. Qed.
 Definition accept_after_end : list tid := [1; 0; 2; 2; 1; 1; 1; 0; 0; 0; 0; 0]%nat.
 
 Lemma prefix_dropped :
-  let s := final_prefix [5%N] accept_after_end in
+  let s := final_prefix [v5] accept_after_end in
   quiescent s = true /\ returned s = true /\
   map (fun c => (c_phase c, c_closed c)) (s_conns s) = [(PDropped, false)] /\
   shutdown_complete s = false.
 Proof. vm_compute. repeat split. Qed.
 
 Lemma fixed_dropped :
-  let s := final [5%N] accept_after_end in
+  let s := final [v5] accept_after_end in
   quiescent s = true /\ shutdown_complete s = true.
 Proof. vm_compute. repeat split. Qed.
 
 Lemma C36_refuted_prefix : exists vers sched,
   close_called (final_prefix vers sched) = true /\ quiescent (final_prefix vers sched) = true /\
   shutdown_complete (final_prefix vers sched) = false.
-Proof. exists [5%N], mid_attach. vm_compute. repeat split. Qed.
+Proof. exists [v5], mid_attach. vm_compute. repeat split. Qed.
